@@ -27,6 +27,7 @@ class Sym:
         self.fn = fn
         self.du = DefUse(fn)
         self._memo = {}
+        self._flag_busy = set()
         self._dom = None
         self._facts = {}
 
@@ -139,11 +140,16 @@ class Sym:
             return "p%d" % l
         if len(ds) != 1:
             return "_%d" % l
-        (b, i, kind, payload) = ds[0]
+        return self._def_val(ds[0], l, depth)
+
+    def _def_val(self, d, l, depth):
+        """symbolic value stored by one whole definition `d` of local l"""
+        fn = self.fn
+        (b, i, kind, payload) = d
         if kind == "call":
             name = payload.get("resolved") or payload.get("callee") or "?"
             cal = payload.get("callee") or name
-            mconv = re.search(r"convert::num::<impl std::convert::From<(\w+)> for (\w+)>::from$", name)
+            mconv = re.search(r"convert::(?:num::)?<impl std::convert::From<(\w+)> for (\w+)>::from$", name)
             if mconv and len(payload["args"]) == 1:
                 # lossless integer widening: same value as an `as` cast
                 return "(%s as %s)" % (self.val(payload["args"][0], depth + 1), mconv.group(2))
@@ -254,8 +260,53 @@ class Sym:
                             out2.append(g)
                             have.add((g[0], g[1], g[2]))
             out2.append(f)
-        self._facts[block] = out2
-        return out2
+        # a flag local that is assigned only constants (`let r = a || b || c;`, the result of an inlined predicate helper): on the edge
+        # where the flag has value v, and exactly one assignment stores v, the tests that guarded THAT assignment hold as well
+        out3 = []
+        for f in out2:
+            out3.append(f)
+            m = re.fullmatch(r"_(\d+)", f[0])
+            if not m:
+                continue
+            want = None
+            if f[1] == "==" and f[2] in (0, 1):
+                want = f[2]
+            elif f[1] == "notin" and f[2] in ((0,), (1,)):
+                want = 1 - f[2][0]
+            if want is None:
+                continue
+            ds = self.du.whole_defs(int(m.group(1)))
+            vals, other = [], []
+            for d_ in ds:
+                (db, di, kind, payload) = d_
+                o = payload["rhs"]["ops"][0] if kind == "stmt" and payload["rhs"]["rv"] == "use" else {}
+                if o.get("k") == "const" and "int" in o:
+                    vals.append((o["int"], db))
+                else:
+                    other.append(d_)
+            if not vals or len(other) > 1:
+                continue
+            src = [db for (v, db) in vals if v == want]
+            extra = None
+            if not src and len(other) == 1:
+                # `a || b || last`: the flag is `true` on the early exits and the value of `last` otherwise; it is false only as the value of `last`
+                src = [other[0][0]]
+                extra = (self._def_val(other[0], int(m.group(1)), 0), "==", want, other[0][0])
+            elif other:
+                continue
+            if len(src) != 1 or src[0] == block or (src[0], block) in self._flag_busy:
+                continue
+            self._flag_busy.add((src[0], block))
+            try:
+                have = {(x[0], x[1], x[2]) for x in out3}
+                for g in self.facts_at(src[0]) + ([extra] if extra else []):
+                    if (g[0], g[1], g[2]) not in have:
+                        out3.append(g)
+                        have.add((g[0], g[1], g[2]))
+            finally:
+                self._flag_busy.discard((src[0], block))
+        self._facts[block] = out3
+        return out3
 
     def bool_facts_at(self, block):
         """normalised boolean facts: list of (expr_string, truth, guard_block)"""
